@@ -7,14 +7,14 @@ TAG=$1; OUT=/tmp/ben_$TAG/_out; WT=/tmp/benrun_$TAG
 DST=/verif/benign/$TAG; mkdir -p "$DST"
 git -C /repo worktree remove --force "$WT" 2>/dev/null
 git -C /repo worktree add -q --detach "$WT" HEAD || exit 2
-bin/rlint -repo "$WT" -all 2>&1 | grep -E "obligations=" | awk '{print $1, $3}' > "$DST/base.txt"
+/tmp/rlint_ben -repo "$WT" -all 2>&1 | grep -E "obligations=" | awk '{print $1, $3}' > "$DST/base.txt"
 : > "$DST/result.txt"
 for p in "$OUT"/r*.diff; do
   n=$(basename "$p" .diff)
   cp "$p" "$DST/$n.diff"
   if ! git -C "$WT" apply --check "$p" 2>/dev/null; then echo "$n: does-not-apply" | tee -a "$DST/result.txt"; continue; fi
   git -C "$WT" apply "$p"
-  bin/rlint -repo "$WT" -all > "$DST/$n.log" 2>&1
+  /tmp/rlint_ben -repo "$WT" -all > "$DST/$n.log" 2>&1
   grep -E "obligations=" "$DST/$n.log" | awk '{print $1, $3}' > "$DST/$n.txt"
   d=$(diff "$DST/base.txt" "$DST/$n.txt" | grep '^>' | tr '\n' ' ')
   if [ -z "$d" ]; then echo "$n: silent" | tee -a "$DST/result.txt"; rm -f "$DST/$n.log"; else echo "$n: ALARM $d" | tee -a "$DST/result.txt"; fi
